@@ -384,6 +384,11 @@ func hostileTS(t *rapid.T) ([]byte, readOpts) {
 	if rapid.Bool().Draw(t, "optpage") {
 		o.Page = s.pageOption()
 	}
+	if rapid.IntRange(0, 5).Draw(t, "weirdopts") == 0 {
+		o.Page = rapid.SampledFrom([]int{-1, -888, 1, 99, 900, 999999, 1 << 40}).Draw(t, "weirdpage")
+		o.PID = rapid.SampledFrom([]int{0, -5, 8191, 65536 + ttxPID, 1 << 40}).Draw(t, "weirdpid")
+		return m.out.Bytes(), o
+	}
 	if rapid.Bool().Draw(t, "optpid") || noTables < 3 && rapid.Bool().Draw(t, "forcepid") {
 		o.PID = ttxPID
 	}
